@@ -249,6 +249,9 @@ def parse_iso8601(
 
             offset = ((int(off_hour) * 60) + int(off_minute)) * 60
 
+            if offset >= 24 * 60 * 60:
+                raise ParserError("Invalid string: timezone offset is too large")
+
             if negative:
                 offset = -1 * offset
 
